@@ -239,6 +239,12 @@ LensR(p, pre, m, f, o, r) ==
                [CallsOf(o.calls, "Mint")[1] EXCEPT !.ok = TRUE] = [CallsOf(exp.calls, "Mint")[1] EXCEPT !.ok = TRUE]
          /\ (res = "ok" /\ ~IsModuleRecv(m)) => CallsOf(o.calls, "Mint") = <<>>
          /\ (res = "ok" /\ IsModuleRecv(m)) => Len(CallsOf(o.calls, "Mint")) = 1
+         \* the one mint is what the burn message and the linked pair say, in the module's name
+         /\ (res = "ok" /\ IsModuleRecv(m) /\ CallsOf(o.calls, "Mint") # <<>>) =>
+               /\ m.wire.body.k = "burn" /\ HasPair(pre, m.wire.src, m.wire.body.tok)
+               /\ CallsOf(o.calls, "Mint")[1] =
+                     [fn |-> "Mint", from |-> MODULE_ACC, to |-> m.wire.body.rcpt.lo,
+                      denom |-> Lower(PairOf(pre, m.wire.src, m.wire.body.tok).denom), amt |-> m.wire.body.amt, ok |-> TRUE]
          /\ res # "ok" => Ledger(o.post) = Ledger(pre)
     [] p = "C05" ->
          /\ both => /\ OkCalls(o.calls, "Transfer") = OkCalls(exp.calls, "Transfer")
@@ -331,6 +337,33 @@ Lens(p, pre, m, f, o) == LensR(p, pre, m, f, o, Run(pre, m, f))
 Diverges(pre, m, f, o) ==
   LET r == Run(pre, m, f) IN
   ~(ResOf(o) = r.out.res /\ o.post = r.post /\ o.evs = r.out.evs /\ o.calls = r.out.calls /\ o.resp = r.out.resp)
+\* ---- along the history ----------------------------------------------------------------------------------
+\* x is the state that the history of transactions establishes under the specification.  The code may accept a
+\* transaction only if the specification, in that state, accepts it: "currently enabled attester", "current
+\* holder", "unused nonce", "not paused", "registered messenger" are statements about the history, not about
+\* whatever a store slot (or a memory cell) happens to hold.  Only this direction, and never in a don't-care zone.
+AnyDontCare(m) ==
+  CASE m.type = "Batch"    -> \E i \in DOMAIN m.msgs : DontCare(m.msgs[i])
+    [] m.type = "Simulate" -> (IF m.tx.type = "Batch" THEN \E i \in DOMAIN m.tx.msgs : DontCare(m.tx.msgs[i]) ELSE DontCare(m.tx))
+    [] OTHER               -> DontCare(m)
+AlongHistory(x, m, f, o) ==
+  IF m.type \in {"Batch", "Simulate"} \/ DontCare(m) \/ ResOf(o) # "ok" THEN {} ELSE
+  LET xr == Run(x, m, f) IN
+  IF xr.out.res = "ok" THEN {} ELSE
+       (IF m.type = "ReceiveMessage" THEN {"C03"} ELSE {})
+  \cup (IF HasAtt(m) /\ ~AttestDecl(x.attesters, x.threshold, m.att) THEN {"C01"} ELSE {})
+  \cup (IF m.type = "ReceiveMessage" /\ m.wire.k = "msg" /\ [d |-> m.wire.src, n |-> m.wire.nonce] \in x.used THEN {"C02"} ELSE {})
+  \cup (IF m.type \in DepTypes THEN {"C08"} ELSE {})
+  \cup (IF m.type \in ReplTypes THEN {"C09"} ELSE {})
+  \cup (IF BlockedBy(x, m) THEN {"C12"} ELSE {})
+  \cup (IF m.type \in PrivTypes /\ m.from # Holder(x, m.type) THEN {"C10"} ELSE {})
+  \cup (IF m.type \in {"UpdateOwner", "AcceptOwner", "UpdateAttesterManager", "UpdatePauser", "UpdateTokenController"}
+           /\ m.from = Holder(x, m.type) THEN {"C11"} ELSE {})
+  \cup (IF m.type \in AttMgrTypes /\ m.from = Holder(x, m.type) THEN {"C13"} ELSE {})
+  \cup (IF m.type \in RegistryTypes /\ m.from = Holder(x, m.type) THEN {"C19"} ELSE {})
+  \cup (IF IsModuleRecv(m) THEN {"C04"} ELSE {})            \* a mint the history does not justify
+  \cup (IF m.type \in DepTypes \cup {"ReplaceDepositForBurn"} THEN {"C05"} ELSE {})   \* a module-sender message it does not justify
+
 Fails(pre, m, f, o)   == LET r == Run(pre, m, f) IN
                          {p \in PropIds : Applies(p, pre, m, f, o) /\ ~LensR(p, pre, m, f, o, r)}
 Applied(pre, m, f, o) == {p \in PropIds : Applies(p, pre, m, f, o)}
